@@ -1,12 +1,18 @@
 // C06 lane: real TcpServer + TcpAcceptor + TcpClient + TcpConnector + TcpConnection over a unix-domain listening socket
 // on one real loop (engine H, in-process BFS).
-// usage: tcp_harness <engine> <depth> <sockdir> <part> <nparts> [thr=N] [pol=N] [rc=0|1] [bind=0|1] [sub=a/b]
+// usage: tcp_harness <engine> <depth> <sockdir> <part> <nparts> [thr=N] [pol=N] [rc=0|1] [bind=0|1] [cb=N] [reinit=0|1] [sub=a/b]
+//   cb      : user callbacks that call back in (bit mask): 1 both connected callbacks send a 1-byte greeting, 2 the server's receive callback echoes the
+//             bytes it took, 4 the first receive callback of a connection closes its own end (server: disconnect(token); client 0: stop())
+//   reinit=1: "server-stop" is TcpServer::cleanup() + initialize() + callbacks again (the listening socket is closed and re-created: connections
+//             still waiting in its queue die with it); "server-start" then starts the second life
 //   thr/pol : receive threshold and consumption policy (0 all, 1 one byte, 2 none, 3 all-but-1) used by the server and both clients
 //   rc=1    : client 0 runs with setAutoReconnect(true) (client 1 never does, so a connect() nobody asked for is client 0's)
-//   bind=1  : client 1 is bound (TcpClient::bind, before start) to a ByteStream of the harness: its received bytes are forwarded, not called back
+//   bind=1  : client 1 is bound (TcpClient::bind, before start) to a ByteStream of the harness: its received bytes are forwarded, not called back;
+//             operation bind-toggle(1) unbinds / binds again on the live connection
 // Objects live for the whole history and go through several sessions: client stop/start, peer-initiated disconnect and auto-reconnect,
 // server stop/start (connections made meanwhile wait in the listen queue), half-close from either side.
-// A session = one connect() of a client. The kernel accepts in connect order, so the k-th server connected-callback is session k.
+// A session = one connect() of a client. The kernel hands connections out in connect order, so every accept() takes the oldest session still
+// waiting in the listen queue (those die when the listening socket is closed).
 // Client 1 installs its receive / send-complete callbacks inside its connected callback (late installation on a live connection), and its
 // "stop" is a re-initialisation: cleanup() + initialize() + callbacks (+ bind) again. Client 0's stop is TcpClient::stop().
 //
@@ -14,24 +20,29 @@
 // accepted, the number delivered (taken by the callback / forwarded) and the number shown at least once; per-fd counters of bytes really
 // written (interposed write()), connect()/accept() interposed to know which descriptor belongs to which session.
 #include "hist/hist.h"
+#include "probe.h"
 #include <tbox/event/loop.h>
 #include <tbox/network/tcp_server.h>
 #include <tbox/network/tcp_client.h>
 #include <tbox/network/sockaddr.h>
 #include <sys/stat.h>
+#include <sstream>
 #include <sys/socket.h>
 #include <sys/syscall.h>
 using namespace tbox; using namespace tbox::network;
 
-enum K { START_CLIENT, CLIENT_SEND, SERVER_SEND, CLIENT_STOP, SERVER_DISCONNECT, PASS, SERVER_STOP, SERVER_START, CLIENT_SHUT_WR, SERVER_SHUT_WR, NK };
-static const char *kN[] = {"start-client", "client-send", "server-send", "client-stop", "server-disconnect", "pass", "server-stop", "server-start", "client-shutdown-wr", "server-shutdown-wr"};
+enum K { START_CLIENT, CLIENT_SEND, SERVER_SEND, CLIENT_STOP, SERVER_DISCONNECT, PASS, SERVER_STOP, SERVER_START, CLIENT_SHUT_WR, SERVER_SHUT_WR, BIND_TOGGLE, NK };
+static const char *kN[] = {"start-client", "client-send", "server-send", "client-stop", "server-disconnect", "pass", "server-stop", "server-start", "client-shutdown-wr", "server-shutdown-wr", "bind-toggle"};
 struct Op { int k, i, n; };
 enum Policy { ALL, ONE, NONE_, ALL_BUT_ONE };
 static const int NC = 2, MAXS = 5, MAXFD = 4096;
-struct Cfg { std::string eng, dir; size_t thr = 0; int pol = 0; bool reconnect = false, bind1 = false; };
+struct Cfg { std::string eng, dir; size_t thr = 0; int pol = 0, cb = 0; bool reconnect = false, bind1 = false, reinit = false; };
+enum { CB_GREET = 1, CB_ECHO = 2, CB_CLOSE = 4 };
+VF_PROBE(read_index_)
 
 struct Sess {
-  int client = -1, cfd = -1, sfd = -1;
+  int client = -1, cfd = -1, sfd = -1, tk = -1;      // tk: index of the server's token for this session (-1: not accepted)
+  size_t c_bind_mark = 0; bool s_cb_closed = false, c_cb_closed = false;
   bool c_connected = false, accepted = false, c_user_closed = false, s_user_closed = false, c_shutwr = false, s_shutwr = false; int c_disc = 0, s_disc = 0;
   std::string c_sent, s_sent;                 // client->server / server->client bytes whose send() was accepted
   size_t s_cons = 0, s_hi = 0, c_cons = 0, c_hi = 0;   // delivered / shown-at-least-once counts on the server side (of c_sent) and the client side (of s_sent)
@@ -41,6 +52,8 @@ struct Sess {
   bool server_closed() const { return s_user_closed || s_shutwr || s_disc > 0; }
 };
 
+static bool g_trace = false;      // C06_TRACE=1: event trace on stderr (for replaying one history by hand, see C06_REPLAY in main)
+#define TRACE(...) do { if (g_trace) { fprintf(stderr, __VA_ARGS__); fputc('\n', stderr); } } while (0)
 struct World;
 struct Receiver : ByteStream { World *w = nullptr;
   void setReceiveCallback(const ReceiveCallback &, size_t) override {} void setSendCompleteCallback(const SendCompleteCallback &) override {}
@@ -48,59 +61,71 @@ struct Receiver : ByteStream { World *w = nullptr;
 
 struct World {
   Cfg cfg; event::Loop *loop; TcpServer *srv; TcpClient *cli[NC]; Receiver rcv;
-  std::vector<Sess> ss; std::vector<TcpServer::ConnToken> tok; std::vector<int> accepted_fds;
+  std::vector<Sess> ss; std::vector<TcpServer::ConnToken> tok; std::vector<int> tok_sess /*token index -> session*/, accepted_fds, accepted_sess; std::deque<int> backlog /*sessions waiting in the listen queue*/; bool bound1 = false; std::string path;
   int cur[NC] = {-1, -1}, pend[NC] = {-1, -1}; bool active[NC] = {false, false}; int cur_client = -1; bool srv_running = false;
   long long wr[MAXFD]; std::string viol; uint8_t ctr[NC] = {1, 101}; uint8_t sctr[NC] = {51, 151};
   size_t cthr[NC]; int cpol[NC]; int gen = 0;          // callbacks carry the generation they were installed with; a replaced callback must not be called
   int tok_index(const TcpServer::ConnToken &t) { for (size_t k = 0; k < tok.size(); k++) if (tok[k] == t) return (int)k; return -1; }
+  int sess_of(const TcpServer::ConnToken &t) { int k = tok_index(t); return k < 0 ? -1 : tok_sess[k]; }
   void pass() { loop->runNext([] {}); loop->runLoop(event::Loop::Mode::kOnce); }
-  void fail(const std::string &v) { if (viol.empty()) viol = v; }
+  void fail(const std::string &v) { TRACE("FAIL %s", v.c_str()); if (viol.empty()) viol = v; }
   static size_t take_of(int pol, size_t n) { return pol == ALL ? n : pol == ONE ? std::min<size_t>(1, n) : pol == NONE_ ? 0 : n - (n > 0); }
   int server_sess(int i) { for (int j = (int)ss.size() - 1; j >= 0; j--) if (ss[j].client == i && ss[j].s_open()) return j; return -1; }   // the server's newest live connection to client i (may be one the client already left)
 
   // ---- syscalls seen by the harness
-  void on_connect(int fd) {
+  void on_connect(int fd) { TRACE("connect fd=%d cur_client=%d", fd, cur_client);
     int c = cur_client; if (c < 0) { if (!cfg.reconnect) { fail("connect-attempt-nobody-asked-for"); return; } c = 0; }
-    Sess s; s.client = c; s.cfd = fd; ss.push_back(s); pend[c] = (int)ss.size() - 1; active[c] = true; if (fd >= 0 && fd < MAXFD) wr[fd] = 0; }
-  void on_accept(int fd) { accepted_fds.push_back(fd); if (fd >= 0 && fd < MAXFD) wr[fd] = 0; }
+    Sess s; s.client = c; s.cfd = fd; ss.push_back(s); pend[c] = (int)ss.size() - 1; backlog.push_back(pend[c]); active[c] = true; if (fd >= 0 && fd < MAXFD) wr[fd] = 0; }
+  void on_accept(int fd) { TRACE("accept fd=%d backlog=%zu", fd, backlog.size()); if (backlog.empty()) { fail("accept-without-a-waiting-connection"); return; } accepted_fds.push_back(fd); accepted_sess.push_back(backlog.front()); backlog.pop_front(); if (fd >= 0 && fd < MAXFD) wr[fd] = 0; }
 
   // ---- server callbacks
   void srv_connected(const TcpServer::ConnToken &t) { if (tok_index(t) >= 0) { fail("server-connected-callback-twice-for-one-token"); return; }
-    size_t k = tok.size(); tok.push_back(t); if (k >= ss.size() || k >= accepted_fds.size()) { fail("server-connected-callback-without-a-connection-attempt"); return; } ss[k].accepted = true; ss[k].sfd = accepted_fds[k]; }
-  void srv_disconnected(const TcpServer::ConnToken &t) { int k = tok_index(t); if (k < 0 || k >= (int)ss.size()) { fail("server-disconnected-callback-for-unknown-token"); return; } Sess &s = ss[k];
+    size_t k = tok.size(); if (k >= accepted_sess.size()) { fail("server-connected-callback-without-an-accepted-connection"); return; }
+    tok.push_back(t); tok_sess.push_back(accepted_sess[k]); Sess &s = ss[accepted_sess[k]]; s.accepted = true; s.sfd = accepted_fds[k]; s.tk = (int)k;
+    if (cfg.cb & CB_GREET) { char g = (char)sctr[s.client]++; s.s_sent.push_back(g); if (!srv->send(t, &g, 1)) fail("server-send-inside-connected-callback-returned-false"); } }
+  void srv_disconnected(const TcpServer::ConnToken &t) { int k = sess_of(t); TRACE("srv_disconnected sess=%d", k); if (k < 0) { fail("server-disconnected-callback-for-unknown-token"); return; } Sess &s = ss[k];
     if (++s.s_disc > 1) fail("server-disconnected-callback-more-than-once");
     if (s.s_hi < s.c_sent.size() && s.c_sent.size() - s.s_cons >= cfg.thr) fail("server-told-peer-closed-before-all-preceding-data-was-presented");
     if (!(s.c_user_closed || s.c_shutwr || s.c_disc > 0)) fail("server-disconnected-callback-although-the-client-did-not-close"); }
   void srv_received(int g, const TcpServer::ConnToken &t, util::Buffer &b) { if (g != gen) { fail("replaced-server-receive-callback-was-called"); return; }
-    int k = tok_index(t); if (k < 0 || k >= (int)ss.size()) { fail("server-receive-callback-for-unknown-token"); return; } Sess &s = ss[k];
+    int k = sess_of(t); if (k < 0) { fail("server-receive-callback-for-unknown-token"); return; } Sess &s = ss[k]; TRACE("srv_received sess=%d n=%zu", k, b.readableSize());
     if (s.s_disc) { fail("server-receive-callback-after-disconnected-callback"); return; }
     size_t n = b.readableSize(); if (n < cfg.thr) { fail("server-receive-callback-below-threshold"); return; }
     if (s.s_cons + n > s.c_sent.size() || memcmp(b.readableBegin(), s.c_sent.data() + s.s_cons, n) != 0) { fail("server-receive-callback-content-not-the-undelivered-bytes-of-that-client-in-order"); return; }
-    s.s_hi = std::max(s.s_hi, s.s_cons + n); size_t take = take_of(cfg.pol, n); b.hasRead(take); s.s_cons += take; }
-  void srv_complete(const TcpServer::ConnToken &t) { int k = tok_index(t); if (k < 0 || k >= (int)ss.size()) { fail("server-send-complete-for-unknown-token"); return; } Sess &s = ss[k];
+    s.s_hi = std::max(s.s_hi, s.s_cons + n); size_t take = take_of(cfg.pol, n); std::string taken((const char *)b.readableBegin(), take); b.hasRead(take); s.s_cons += take;
+    if ((cfg.cb & CB_ECHO) && take > 0 && g == 0 && !s.s_shutwr) { s.s_sent += taken; if (!srv->send(t, taken.data(), taken.size())) fail("server-send-inside-receive-callback-returned-false"); }      // echo server
+    if ((cfg.cb & CB_CLOSE) && !s.s_cb_closed && g == 0) { s.s_cb_closed = true; s.s_user_closed = true; if (!srv->disconnect(t)) fail("server-disconnect-inside-receive-callback-returned-false"); } }
+  void srv_complete(const TcpServer::ConnToken &t) { int k = sess_of(t); TRACE("srv_complete sess=%d wr=%lld sent=%zu", k, k >= 0 && ss[k].sfd >= 0 ? wr[ss[k].sfd] : -1, k >= 0 ? ss[k].s_sent.size() : 0); if (k < 0) { fail("server-send-complete-for-unknown-token"); return; } Sess &s = ss[k];
+    if (s.client_closed()) return;       // the kernel refuses bytes sent after the other side closed: "everything sent" is then no longer what was written
     if (s.sfd >= 0 && s.sfd < MAXFD && (size_t)wr[s.sfd] != s.s_sent.size()) fail("server-send-complete-before-everything-sent-on-that-connection-was-written"); }
 
   // ---- client callbacks
   void install_client_cbs(int i) { World *pw = this; int g = gen;
     cli[i]->setReceiveCallback([pw, i, g](util::Buffer &b) { pw->cli_received(g, i, b); }, cthr[i]); cli[i]->setSendCompleteCallback([pw, i, g] { pw->cli_complete(g, i); }); }
-  void cli_connected(int i) { int j = pend[i]; if (j < 0) { fail("client-connected-callback-without-a-pending-connect"); return; }
-    ss[j].c_connected = true; cur[i] = j; pend[i] = -1; if (i == 1) install_client_cbs(1); }
-  void cli_disconnected(int i) { int j = cur[i]; if (j < 0) { fail("client-disconnected-callback-without-a-live-connection"); return; } Sess &s = ss[j];
+  void cli_connected(int i) { int j = pend[i]; TRACE("cli_connected client=%d sess=%d", i, j); if (j < 0) { fail("client-connected-callback-without-a-pending-connect"); return; }
+    ss[j].c_connected = true; cur[i] = j; pend[i] = -1; if (i == 1) install_client_cbs(1);
+    if (cfg.cb & CB_GREET) { char g = (char)ctr[i]++; ss[j].c_sent.push_back(g); if (!cli[i]->send(&g, 1)) fail("client-send-inside-connected-callback-returned-false"); } }
+  void cli_disconnected(int i) { int j = cur[i]; TRACE("cli_disconnected client=%d sess=%d", i, j); if (j < 0) { fail("client-disconnected-callback-without-a-live-connection"); return; } Sess &s = ss[j];
     if (++s.c_disc > 1) fail("client-disconnected-callback-more-than-once");
-    if (s.c_hi < s.s_sent.size() && (bound(i) || s.s_sent.size() - s.c_cons >= cthr[i])) fail("client-told-peer-closed-before-all-preceding-data-was-presented");
+    if (c_due(i, s)) fail("client-told-peer-closed-before-all-preceding-data-was-presented");
     if (!(s.s_user_closed || s.s_shutwr || s.s_disc > 0)) fail("client-disconnected-callback-although-the-server-did-not-close");
     cur[i] = -1; active[i] = pend[i] >= 0; }
-  bool bound(int i) const { return cfg.bind1 && i == 1; }
+  bool bound(int i) const { return bound1 && i == 1; }
+  // bytes the client side must have been shown once everything in the kernel was read: unbound - the undelivered bytes reach the threshold; bound - a byte arrived after the bind
+  bool c_due(int i, const Sess &s) const { return s.c_hi < s.s_sent.size() && (bound(i) ? s.s_sent.size() > s.c_bind_mark : s.s_sent.size() - s.c_cons >= cthr[i]); }
   void cli_received(int g, int i, util::Buffer &b) { if (g != gen) { fail("replaced-client-receive-callback-was-called"); return; }
     if (bound(i)) { fail("client-receive-callback-while-a-receiver-is-bound"); return; }
-    int j = cur[i]; if (j < 0) { fail("client-receive-callback-without-a-live-connection"); return; } Sess &s = ss[j];
+    int j = cur[i]; if (j < 0) { fail("client-receive-callback-without-a-live-connection"); return; } Sess &s = ss[j]; TRACE("cli_received client=%d sess=%d n=%zu", i, j, b.readableSize());
     size_t n = b.readableSize(); if (n < cthr[i]) { fail("client-receive-callback-below-threshold"); return; }
     if (s.c_cons + n > s.s_sent.size() || memcmp(b.readableBegin(), s.s_sent.data() + s.c_cons, n) != 0) { fail("client-receive-callback-content-not-the-undelivered-bytes-the-server-sent-to-it-in-order"); return; }
-    s.c_hi = std::max(s.c_hi, s.c_cons + n); size_t take = take_of(cpol[i], n); b.hasRead(take); s.c_cons += take; }
+    s.c_hi = std::max(s.c_hi, s.c_cons + n); size_t take = take_of(cpol[i], n); b.hasRead(take); s.c_cons += take;
+    if ((cfg.cb & CB_CLOSE) && i == 0 && !s.c_cb_closed && g == 0) { s.c_cb_closed = true; user_stop(0); } }
+  void user_stop(int i) { for (int j : {cur[i], pend[i]}) if (j >= 0) ss[j].c_user_closed = true; cur[i] = pend[i] = -1; active[i] = false; cli[i]->stop(); }
   void cli_forward(const void *p, size_t n) { int j = cur[1]; if (j < 0) { fail("bytes-forwarded-without-a-live-connection"); return; } Sess &s = ss[j];
     if (s.c_cons + n > s.s_sent.size() || memcmp(p, s.s_sent.data() + s.c_cons, n) != 0) { fail("forwarded-bytes-are-not-the-undelivered-bytes-the-server-sent-in-order"); return; }
     s.c_cons += n; s.c_hi = std::max(s.c_hi, s.c_cons); }
   void cli_complete(int g, int i) { if (g != gen) { fail("replaced-client-send-complete-callback-was-called"); return; } int j = cur[i]; if (j < 0) return; Sess &s = ss[j];
+    if (s.server_closed()) return;
     if (s.cfd >= 0 && s.cfd < MAXFD && (size_t)wr[s.cfd] != s.c_sent.size()) fail("client-send-complete-before-everything-sent-on-that-connection-was-written"); }
 
   // ---- which operations do something in the current model state (the menu offers only these; the others would be no-ops)
@@ -115,16 +140,23 @@ struct World {
       case SERVER_STOP: return srv_running;
       case SERVER_START: return !srv_running;
       case CLIENT_SHUT_WR: { int j = cur[o.i]; return j >= 0 && ss[j].c_open() && !ss[j].c_shutwr; }
-      case SERVER_SHUT_WR: { int j = server_sess(o.i); return j >= 0 && !ss[j].s_shutwr; } }
+      case SERVER_SHUT_WR: { int j = server_sess(o.i); return j >= 0 && !ss[j].s_shutwr; }
+      case BIND_TOGGLE: return cfg.bind1 && cur[1] >= 0; }
     return false; }
-  void check_tokens() { for (size_t k = 0; k < tok.size() && k < ss.size(); k++) { bool v = srv->isClientValid(tok[k]);
-      if (ss[k].s_user_closed && v) fail("token-still-valid-after-the-server-closed-that-connection"); if (ss[k].s_open() && !v) fail("token-of-a-live-connection-is-not-valid"); } }
+  void check_tokens() { for (size_t k = 0; k < tok.size(); k++) { bool v = srv->isClientValid(tok[k]); Sess &s = ss[tok_sess[k]];
+      if (s.s_user_closed && v) fail("token-still-valid-after-the-server-closed-that-connection"); if (s.s_open() && !v) fail("token-of-a-live-connection-is-not-valid"); } }
 };
 bool Receiver::send(const void *p, size_t n) { w->cli_forward(p, n); return true; }
 
 static World *g_w = nullptr;
+
 extern "C" int connect(int fd, const struct sockaddr *a, socklen_t l) { int r = (int)syscall(SYS_connect, fd, a, l);
   if (g_w) { if (r == 0 || errno == EINPROGRESS) g_w->on_connect(fd); else g_w->fail("harness-connect-failed-errno-" + std::to_string(errno)); } return r; }
+// The clock stands still while a history runs: a TcpConnector whose connection attempt fails (only possible here when the listening socket is
+// re-created with the attempt still in its queue) waits in its retry delay for the rest of the history instead of re-connecting at a wall-clock
+// dependent moment. Outside run_hist() (engine deadline) the real clock is used.
+static struct timespec g_frozen;
+extern "C" int clock_gettime(clockid_t id, struct timespec *ts) { if (g_w) { *ts = g_frozen; return 0; } return (int)syscall(SYS_clock_gettime, id, ts); }
 extern "C" int accept(int fd, struct sockaddr *a, socklen_t *l) { int r = (int)syscall(SYS_accept, fd, a, l); if (g_w && r >= 0) g_w->on_accept(r); return r; }
 extern "C" ssize_t write(int fd, const void *b, size_t n) { ssize_t r = syscall(SYS_write, fd, b, n); if (g_w && r > 0 && fd >= 0 && fd < MAXFD) g_w->wr[fd] += r; return r; }
 
@@ -132,7 +164,7 @@ static std::vector<Op> all_ops() { std::vector<Op> m;
   m.push_back({START_CLIENT, 0, 0}); m.push_back({START_CLIENT, 1, 0}); m.push_back({PASS, 0, 0});
   for (int n : {1, 3}) { m.push_back({CLIENT_SEND, 0, n}); m.push_back({SERVER_SEND, 0, n}); } m.push_back({CLIENT_SEND, 1, 1}); m.push_back({SERVER_SEND, 1, 2});
   for (int i = 0; i < NC; i++) { m.push_back({CLIENT_STOP, i, 0}); m.push_back({SERVER_DISCONNECT, i, 0}); }
-  m.push_back({SERVER_STOP, 0, 0}); m.push_back({SERVER_START, 0, 0}); m.push_back({CLIENT_SHUT_WR, 0, 0}); m.push_back({SERVER_SHUT_WR, 0, 0}); return m; }
+  m.push_back({SERVER_STOP, 0, 0}); m.push_back({SERVER_START, 0, 0}); m.push_back({CLIENT_SHUT_WR, 0, 0}); m.push_back({SERVER_SHUT_WR, 0, 0}); m.push_back({BIND_TOGGLE, 1, 0}); return m; }
 static const std::vector<Op> g_ops = all_ops();
 static std::map<std::string, uint32_t> g_enabled;       // history -> bitmask over g_ops of the operations enabled in the state it reaches
 static std::string hkey(const std::vector<Op> &h) { std::string s; for (auto &o : h) { s.push_back((char)('A' + o.k)); s.push_back((char)('0' + o.i)); s.push_back((char)('0' + o.n)); } return s; }
@@ -140,15 +172,17 @@ static std::string hkey(const std::vector<Op> &h) { std::string s; for (auto &o 
 static std::string run_hist(const Cfg &cfg, const std::vector<Op> &h, std::string &viol) {
   World w; w.cfg = cfg; w.loop = event::Loop::New(cfg.eng); w.rcv.w = &w; memset(w.wr, 0, sizeof w.wr);
   std::string path = cfg.dir + "/c06_" + std::to_string(getpid()) + ".sock"; unlink(path.c_str());
-  w.srv = new TcpServer(w.loop);
+  w.srv = new TcpServer(w.loop); w.bound1 = cfg.bind1; w.path = path;
   if (!w.srv->initialize(SockAddr::FromString(path), 16)) { viol = "harness-server-initialize-failed"; return "x"; }
-  World *pw = &w; g_w = pw;
+  World *pw = &w; syscall(SYS_clock_gettime, CLOCK_MONOTONIC, &g_frozen); g_w = pw;
   auto install_server_cbs = [pw]() { int g = pw->gen;
     pw->srv->setReceiveCallback([pw, g](const TcpServer::ConnToken &t, util::Buffer &b) { pw->srv_received(g, t, b); }, pw->cfg.thr);
     pw->srv->setSendCompleteCallback([pw](const TcpServer::ConnToken &t) { pw->srv_complete(t); }); };
-  w.srv->setConnectedCallback([pw](const TcpServer::ConnToken &t) { pw->srv_connected(t); });
-  w.srv->setDisconnectedCallback([pw](const TcpServer::ConnToken &t) { pw->srv_disconnected(t); });
-  install_server_cbs();
+  auto install_all_server_cbs = [pw, install_server_cbs]() {
+    pw->srv->setConnectedCallback([pw](const TcpServer::ConnToken &t) { pw->srv_connected(t); });
+    pw->srv->setDisconnectedCallback([pw](const TcpServer::ConnToken &t) { pw->srv_disconnected(t); });
+    install_server_cbs(); };
+  install_all_server_cbs();
   if (!w.srv->start()) { viol = "harness-server-start-failed"; g_w = nullptr; return "x"; } w.srv_running = true;
   auto setup_client = [pw, path](int i) { World &w = *pw; if (!w.cli[i]->initialize(SockAddr::FromString(path))) return false; w.cli[i]->setAutoReconnect(i == 0 && w.cfg.reconnect);
     w.cli[i]->setConnectedCallback([pw, i] { pw->cli_connected(i); }); w.cli[i]->setDisconnectedCallback([pw, i] { pw->cli_disconnected(i); });
@@ -163,24 +197,30 @@ static std::string run_hist(const Cfg &cfg, const std::vector<Op> &h, std::strin
       case CLIENT_SEND: { Sess &s = w.ss[w.cur[o.i]]; std::string d; for (int j = 0; j < o.n; j++) d.push_back((char)w.ctr[o.i]++);
           s.c_sent += d; if (!w.cli[o.i]->send(d.data(), d.size())) { s.c_sent.resize(s.c_sent.size() - d.size()); w.fail("client-send-on-live-connection-returned-false"); } } break;
       case SERVER_SEND: { int j = w.server_sess(o.i); Sess &s = w.ss[j]; std::string d; for (int q = 0; q < o.n; q++) d.push_back((char)w.sctr[o.i]++);
-          s.s_sent += d; if (!w.srv->send(w.tok[j], d.data(), d.size())) { s.s_sent.resize(s.s_sent.size() - d.size()); w.fail("server-send-on-live-connection-returned-false"); } } break;
-      case CLIENT_STOP: { for (int j : {w.cur[o.i], w.pend[o.i]}) if (j >= 0) w.ss[j].c_user_closed = true; w.cur[o.i] = w.pend[o.i] = -1; w.active[o.i] = false;
-          if (o.i == 0) w.cli[0]->stop();
-          else { w.cli[1]->cleanup(); if (!setup_client(1)) w.fail("client-initialize-after-cleanup-returned-false"); } } break;   // client 1 is re-initialised: cleanup() + initialize() + callbacks (+ bind) again
-      case SERVER_DISCONNECT: { int j = w.server_sess(o.i); w.ss[j].s_user_closed = true; if (!w.srv->disconnect(w.tok[j])) w.fail("server-disconnect-of-live-connection-returned-false"); } break;
-      case SERVER_STOP: { w.srv_running = false; for (auto &s : w.ss) if (s.s_open()) s.s_user_closed = true; w.srv->stop(); } break;
+          s.s_sent += d; if (!w.srv->send(w.tok[s.tk], d.data(), d.size())) { s.s_sent.resize(s.s_sent.size() - d.size()); w.fail("server-send-on-live-connection-returned-false"); } } break;
+      case CLIENT_STOP: { if (o.i == 0) w.user_stop(0);
+          else { for (int j : {w.cur[1], w.pend[1]}) if (j >= 0) w.ss[j].c_user_closed = true; w.cur[1] = w.pend[1] = -1; w.active[1] = false; w.cli[1]->cleanup(); if (!setup_client(1)) w.fail("client-initialize-after-cleanup-returned-false"); } } break;   // client 1 is re-initialised: cleanup() + initialize() + callbacks (+ bind) again
+      case SERVER_DISCONNECT: { int j = w.server_sess(o.i); w.ss[j].s_user_closed = true; if (!w.srv->disconnect(w.tok[w.ss[j].tk])) w.fail("server-disconnect-of-live-connection-returned-false"); } break;
+      case SERVER_STOP: { w.srv_running = false; for (auto &s : w.ss) if (s.s_open()) s.s_user_closed = true;
+          if (!cfg.reinit) w.srv->stop();
+          else { for (int j : w.backlog) w.ss[j].s_user_closed = true; w.backlog.clear();         // the listening socket goes away, and with it every connection still waiting in its queue
+            w.srv->cleanup(); if (!w.srv->initialize(SockAddr::FromString(path), 16)) w.fail("server-initialize-after-cleanup-returned-false"); install_all_server_cbs(); } } break;
       case SERVER_START: { if (!w.srv->start()) w.fail("server-start-after-stop-returned-false"); w.srv_running = true; } break;
       case CLIENT_SHUT_WR: { Sess &s = w.ss[w.cur[o.i]]; s.c_shutwr = true; if (!w.cli[o.i]->shutdown(SHUT_WR)) w.fail("client-shutdown-of-live-connection-returned-false"); } break;
-      case SERVER_SHUT_WR: { int j = w.server_sess(o.i); w.ss[j].s_shutwr = true; if (!w.srv->shutdown(w.tok[j], SHUT_WR)) w.fail("server-shutdown-of-live-connection-returned-false"); } break;
+      case SERVER_SHUT_WR: { int j = w.server_sess(o.i); w.ss[j].s_shutwr = true; if (!w.srv->shutdown(w.tok[w.ss[j].tk], SHUT_WR)) w.fail("server-shutdown-of-live-connection-returned-false"); } break;
+      case BIND_TOGGLE: { if (w.bound1) { w.cli[1]->unbind(); w.bound1 = false; } else { w.cli[1]->bind(&w.rcv); w.bound1 = true; Sess &s = w.ss[w.cur[1]]; s.c_bind_mark = s.s_sent.size(); } } break;   // on the live connection
       case PASS: w.pass(); break; }
     w.check_tokens();
   }
-  auto snapshot = [&]() { std::string c; char b[160];
-    for (int i = 0; i < NC; i++) { util::Buffer *rb = w.cli[i]->getReceiveBuffer(); snprintf(b, sizeof b, "c%d:a%d cur%d pend%d st%d rb%zu|", i, (int)w.active[i], w.cur[i], w.pend[i], (int)w.cli[i]->state(), rb ? rb->readableSize() : 0); c += b; }
-    for (size_t k = 0; k < w.ss.size(); k++) { Sess &s = w.ss[k]; util::Buffer *rb = (k < w.tok.size()) ? w.srv->getClientReceiveBuffer(w.tok[k]) : nullptr;
-      snprintf(b, sizeof b, "k%zu:c%d %d%d%d%d%d%d d%d%d cs%zu sc%zu sh%d ss%zu cc%zu ch%d v%d rb%zu|", k, s.client, (int)s.c_connected, (int)s.accepted, (int)s.c_user_closed, (int)s.s_user_closed, (int)s.c_shutwr, (int)s.s_shutwr, s.c_disc, s.s_disc,
-               s.c_sent.size(), s.s_cons, (int)(s.s_hi == s.c_sent.size()), s.s_sent.size(), s.c_cons, (int)(s.c_hi == s.s_sent.size()), k < w.tok.size() ? (int)w.srv->isClientValid(w.tok[k]) : 2, rb ? rb->readableSize() : 0); c += b; }
-    snprintf(b, sizeof b, "S%d%d", (int)w.srv_running, (int)w.srv->state()); c += b; return c; };
+  auto geo = [](util::Buffer *rb, char *out, size_t n) { if (!rb) { snprintf(out, n, "-"); return; } snprintf(out, n, "%zu@%zu+%zu", rb->readableSize(), VF_GET(read_index_, *rb, (size_t)0), rb->writableSize()); };   // residue, read index (probe), free tail
+  auto snapshot = [&]() { std::string c; char b[200], g[48];
+    for (int i = 0; i < NC; i++) { geo(w.cli[i]->getReceiveBuffer(), g, sizeof g); snprintf(b, sizeof b, "c%d:a%d cur%d pend%d st%d rb%s|", i, (int)w.active[i], w.cur[i], w.pend[i], (int)w.cli[i]->state(), g); c += b; }
+    for (size_t k = 0; k < w.ss.size(); k++) { Sess &s = w.ss[k]; geo(s.tk >= 0 ? w.srv->getClientReceiveBuffer(w.tok[s.tk]) : nullptr, g, sizeof g);
+      snprintf(b, sizeof b, "k%zu:c%d %d%d%d%d%d%d%d%d d%d%d cs%zu sc%zu sh%d ss%zu cc%zu ch%d bm%d v%d rb%s|", k, s.client, (int)s.c_connected, (int)s.accepted, (int)s.c_user_closed, (int)s.s_user_closed, (int)s.c_shutwr, (int)s.s_shutwr, (int)s.s_cb_closed, (int)s.c_cb_closed, s.c_disc, s.s_disc,
+               s.c_sent.size(), s.s_cons, (int)(s.s_hi == s.c_sent.size()), s.s_sent.size(), s.c_cons, (int)(s.c_hi == s.s_sent.size()), (int)(s.s_sent.size() > s.c_bind_mark), s.tk >= 0 ? (int)w.srv->isClientValid(w.tok[s.tk]) : 2, g); c += b; }
+    snprintf(b, sizeof b, "S%d%d B%d Q%zu", (int)w.srv_running, (int)w.srv->state(), (int)w.bound1, w.backlog.size()); c += b;
+    if (vf_any_missing()) { c += "|last:"; for (size_t i = h.size() > 3 ? h.size() - 3 : 0; i < h.size(); i++) { c += kN[h[i].k]; c += (char)('0' + h[i].i); c += (char)('0' + h[i].n); c += ','; } }
+    return c; };
   std::string c = snapshot();
   { uint32_t mask = 0; for (size_t q = 0; q < g_ops.size(); q++) if (w.enabled(g_ops[q])) mask |= 1u << q; g_enabled[hkey(h)] = mask; }
   // ---- run to quiescence, then: every connection attempt got connected / accepted, everything sent toward a side that did not itself
@@ -188,11 +228,11 @@ static std::string run_hist(const Cfg &cfg, const std::vector<Op> &h, std::strin
   if (w.viol.empty()) {
     std::string last; int same = 0; for (int i = 0; i < 24 && same < 2 && w.viol.empty(); i++) { w.pass(); std::string now = snapshot(); same = now == last ? same + 1 : 0; last = now; }
     w.check_tokens();
-    for (int i = 0; i < NC && w.viol.empty(); i++) if (w.pend[i] >= 0) w.fail("client-never-connected");
-    if (w.viol.empty() && w.srv_running && w.tok.size() < w.ss.size()) w.fail("server-never-accepted-a-pending-connection (" + std::to_string(w.tok.size()) + " of " + std::to_string(w.ss.size()) + ")");
+    for (int i = 0; i < NC && w.viol.empty(); i++) if (w.pend[i] >= 0 && !w.ss[w.pend[i]].s_user_closed) w.fail("client-never-connected");      // (an attempt that died with the listening socket is retried after a delay)
+    if (w.viol.empty() && w.srv_running && !w.backlog.empty()) w.fail("server-never-accepted-a-pending-connection (" + std::to_string(w.backlog.size()) + " still waiting)");
     for (size_t k = 0; k < w.ss.size() && w.viol.empty(); k++) { Sess &s = w.ss[k]; int ci = s.client;
       if (s.accepted && !s.s_user_closed && s.s_hi < s.c_sent.size() && s.c_sent.size() - s.s_cons >= cfg.thr) w.fail("bytes-sent-by-client-never-presented-to-the-server (shown " + std::to_string(s.s_hi) + " of " + std::to_string(s.c_sent.size()) + ")");
-      else if (s.c_connected && !s.c_user_closed && s.c_hi < s.s_sent.size() && (w.bound(ci) || s.s_sent.size() - s.c_cons >= w.cthr[ci])) w.fail("bytes-sent-by-server-never-presented-to-the-client (shown " + std::to_string(s.c_hi) + " of " + std::to_string(s.s_sent.size()) + ")");
+      else if (s.c_connected && !s.c_user_closed && w.c_due(ci, s)) w.fail("bytes-sent-by-server-never-presented-to-the-client (shown " + std::to_string(s.c_hi) + " of " + std::to_string(s.s_sent.size()) + ")");
       else if (s.client_closed() && s.accepted && !s.s_user_closed && s.s_disc != 1) w.fail("server-disconnected-callback-count-" + std::to_string(s.s_disc) + "-after-client-close");
       else if (s.server_closed() && s.c_connected && !s.c_user_closed && s.c_disc != 1) w.fail("client-disconnected-callback-count-" + std::to_string(s.c_disc) + "-after-server-close"); }
     // flush: every callback is replaced on the live objects (clients: threshold 0, take everything), then one more byte travels each way on every
@@ -201,7 +241,7 @@ static std::string run_hist(const Cfg &cfg, const std::vector<Op> &h, std::strin
       bool any = false;
       for (int i = 0; i < NC; i++) { int j = w.cur[i]; if (j < 0 || j != w.server_sess(i) || !w.ss[j].c_open() || w.ss[j].c_shutwr || w.ss[j].s_shutwr) continue; Sess &s = w.ss[j]; any = true;
         char a = (char)w.ctr[i]++, b = (char)w.sctr[i]++; s.c_sent.push_back(a); s.s_sent.push_back(b);
-        if (!w.cli[i]->send(&a, 1)) w.fail("client-send-on-live-connection-returned-false"); if (!w.srv->send(w.tok[j], &b, 1)) w.fail("server-send-on-live-connection-returned-false"); }
+        if (!w.cli[i]->send(&a, 1)) w.fail("client-send-on-live-connection-returned-false"); if (!w.srv->send(w.tok[s.tk], &b, 1)) w.fail("server-send-on-live-connection-returned-false"); }
       if (any) { for (int i = 0; i < 4 && w.viol.empty(); i++) w.pass();
         for (int i = 0; i < NC && w.viol.empty(); i++) { int j = w.cur[i]; if (j < 0 || !w.ss[j].c_open() || !w.ss[j].s_open()) continue; Sess &s = w.ss[j];
           if (s.c_cons != s.s_sent.size()) w.fail("unconsumed-bytes-not-delivered-again-to-the-client-with-later-data (delivered " + std::to_string(s.c_cons) + " of " + std::to_string(s.s_sent.size()) + ")");
@@ -218,13 +258,17 @@ int main(int argc, char **argv) {
   Cfg cfg; cfg.eng = argc > 1 ? argv[1] : "epoll"; size_t depth = argc > 2 ? atoi(argv[2]) : 5; cfg.dir = argc > 3 ? argv[3] : "/tmp";
   hx::Explorer<Op> ex; int sub = 0, nsub = 1;      // sub/nsub: second-level partition of the search by the SECOND operation (the engine partitions by the first)
   if (argc > 5) { ex.part = atoi(argv[4]); ex.nparts = atoi(argv[5]); }
-  for (int i = 6; i < argc; i++) { if (!strncmp(argv[i], "thr=", 4)) cfg.thr = atoi(argv[i] + 4); else if (!strncmp(argv[i], "pol=", 4)) cfg.pol = atoi(argv[i] + 4); else if (!strncmp(argv[i], "rc=", 3)) cfg.reconnect = atoi(argv[i] + 3) != 0; else if (!strncmp(argv[i], "bind=", 5)) cfg.bind1 = atoi(argv[i] + 5) != 0; else if (!strncmp(argv[i], "sub=", 4)) sscanf(argv[i] + 4, "%d/%d", &sub, &nsub); }
-  char nm[96]; snprintf(nm, sizeof nm, "tcp-%s-thr%zu-pol%d-rc%d-bind%d", cfg.eng.c_str(), cfg.thr, cfg.pol, (int)cfg.reconnect, (int)cfg.bind1); ex.name = nm; ex.deadline_s = hx::deadline_from_env(600);
+  for (int i = 6; i < argc; i++) { if (!strncmp(argv[i], "thr=", 4)) cfg.thr = atoi(argv[i] + 4); else if (!strncmp(argv[i], "pol=", 4)) cfg.pol = atoi(argv[i] + 4); else if (!strncmp(argv[i], "rc=", 3)) cfg.reconnect = atoi(argv[i] + 3) != 0; else if (!strncmp(argv[i], "bind=", 5)) cfg.bind1 = atoi(argv[i] + 5) != 0; else if (!strncmp(argv[i], "cb=", 3)) cfg.cb = atoi(argv[i] + 3); else if (!strncmp(argv[i], "reinit=", 7)) cfg.reinit = atoi(argv[i] + 7) != 0; else if (!strncmp(argv[i], "sub=", 4)) sscanf(argv[i] + 4, "%d/%d", &sub, &nsub); }
+  char nm[96]; snprintf(nm, sizeof nm, "tcp-%s-thr%zu-pol%d-rc%d-bind%d-cb%d-reinit%d", cfg.eng.c_str(), cfg.thr, cfg.pol, (int)cfg.reconnect, (int)cfg.bind1, cfg.cb, (int)cfg.reinit); ex.name = nm; ex.deadline_s = hx::deadline_from_env(600);
   ex.show = [](const Op &o) { char b[48]; if (o.k == CLIENT_SEND || o.k == SERVER_SEND) snprintf(b, 48, "%s(%d,%d)", kN[o.k], o.i, o.n); else if (o.k == PASS || o.k == SERVER_STOP || o.k == SERVER_START) snprintf(b, 48, "%s", kN[o.k]); else snprintf(b, 48, "%s(%d)", kN[o.k], o.i); return std::string(b); };
   ex.menu = [&](const std::vector<Op> &h) { std::vector<Op> m; auto it = g_enabled.find(hkey(h)); uint32_t mask = it == g_enabled.end() ? 0xffffffffu : it->second;
     int idx = 0; for (size_t q = 0; q < g_ops.size(); q++) if (mask & (1u << q)) { if (h.size() == 1 && nsub > 1 && (idx++ % nsub) != sub) continue; m.push_back(g_ops[q]); } return m; };
   ex.sig = [](const std::string &v) { return v.substr(0, v.find(' ')); };
   ex.run = [&](const std::vector<Op> &h, std::string &viol) { return run_hist(cfg, h, viol); };
+  if (const char *rp = getenv("C06_REPLAY")) {      // replay one history by hand: C06_REPLAY='start-client(0) pass ...' [C06_TRACE=1]
+    g_trace = getenv("C06_TRACE") != nullptr; std::vector<Op> h; std::string tokn; std::istringstream is(rp);
+    while (is >> tokn) { bool ok = false; for (auto &o : g_ops) if (ex.show(o) == tokn) { h.push_back(o); ok = true; break; } if (!ok) { printf("unknown op %s\n", tokn.c_str()); return 2; } }
+    std::string v, c = run_hist(cfg, h, v); printf("state: %s\nviolation: %s\n", c.c_str(), v.empty() ? "(none)" : v.c_str()); return 0; }
   ex.explore(depth);
   return 0;
 }
